@@ -104,6 +104,21 @@ func (b *builder) batch(kind string, foreign []string) {
 			b.emit(b.bind("", s))
 			b.emit(script.CMsg{K: "E", Portal: ""})
 		}
+	case "failed-reparse":
+		// a Parse that fails defines nothing and destroys nothing: the name still resolves to what it
+		// was (or still does not resolve); the failure discards the rest of the batch
+		s, p := b.sname(), b.pname()
+		if rapid.IntRange(0, 3).Draw(t, "defined-before") != 0 {
+			b.emit(script.CMsg{K: "P", Name: s, Query: b.q()})
+			if rapid.Bool().Draw(t, "bound-before") {
+				b.emit(b.bind(p, s))
+			}
+		}
+		b.emit(script.CMsg{K: "P", Name: s, Query: rapid.SampledFrom([]string{"refused: error", "refused: empty", "refused: two"}).Draw(t, "refused")})
+		b.emit(script.CMsg{K: "S"})
+		b.emit(script.CMsg{K: "D", Kind: 'S', Name: s})
+		b.emit(b.bind(p, s))
+		b.emit(script.CMsg{K: "E", Portal: p})
 	case "simple-query-between":
 		// the two protocols share the connection, not the namespace: a simple Query between a Bind and
 		// its Execute leaves statements and portals - the unnamed ones included - as they were
@@ -223,7 +238,7 @@ func (b *builder) batch(kind string, foreign []string) {
 	b.emit(script.CMsg{K: "S"})
 }
 
-var kinds = []string{"simple-query-between", "large-message-between", "plain", "reparse-before-execute", "rebind-portal", "describe-after-reparse", "params-per-portal", "close-then-use", "same-name-on-two-connections"}
+var kinds = []string{"failed-reparse", "simple-query-between", "large-message-between", "plain", "reparse-before-execute", "rebind-portal", "describe-after-reparse", "params-per-portal", "close-then-use", "same-name-on-two-connections"}
 
 func genCase(t *rapid.T) Case {
 	c := Case{NConn: rapid.SampledFrom([]int{1, 1, 2, 2, 3}).Draw(t, "nconn")}
